@@ -754,7 +754,7 @@ def cu_build(recipe, env, upto=None):
 
 
 class Gen:
-    def __init__(self, seed, maxdim=9, maxnd=4, depth=4, weights=None, dtypes=None, leaf_srcs=None, hostile=0.0):
+    def __init__(self, seed, maxdim=9, maxnd=4, depth=4, weights=None, dtypes=None, leaf_srcs=None, hostile=0.0, allow_zero=True):
         self.rng = random.Random(seed)
         self.maxdim = maxdim
         self.maxnd = maxnd
@@ -764,6 +764,7 @@ class Gen:
         self.leaf_srcs = leaf_srcs or ["asarray", "asarray", "from_array", "from_zarr"]
         self.rejected = 0
         self.maxsize = 1500
+        self.allow_zero = allow_zero
         self.maxblocks = 60
         self.hostile = hostile  # extra weight on corners cubed may not support (C17)
         self.seedctr = seed * 7919
@@ -772,7 +773,7 @@ class Gen:
     def new_leaf(self, shape=None, dtype=None, ndim=None, **extra):
         rng = self.rng
         if shape is None:
-            shape = draw_shape(rng, self.maxdim, self.maxnd, ndim=ndim)
+            shape = draw_shape(rng, self.maxdim, self.maxnd, ndim=ndim, allow_zero=self.allow_zero)
         if dtype is None:
             pool = self.dtypes or (
                 ["float64"] * 5 + ["int64"] * 4 + ["float32", "int32", "int8", "uint8", "int16", "uint16", "uint32", "uint64", "bool", "complex128", "complex64"]
@@ -819,6 +820,8 @@ class Gen:
             # keep computations small: the cost of a run is ~10 ms per task
             vs = v if isinstance(v, tuple) else (v,)
             if any(getattr(x, "size", 1) > self.maxsize for x in vs):
+                return None
+            if not self.allow_zero and any(getattr(x, "size", 1) == 0 for x in vs):
                 return None
             nodes.append(node)
             vals[i] = v
@@ -1313,7 +1316,7 @@ class Gen:
             axis = rng.randrange(a.ndim)
             for _ in range(k):
                 shape = list(a.shape)
-                shape[axis] = rng.randint(0 if rng.random() < 0.1 else 1, self.maxdim)
+                shape[axis] = rng.randint(0 if (rng.random() < 0.1 and self.allow_zero) else 1, self.maxdim)
                 leaf = self.new_leaf(shape=shape, dtype=str(a.dtype))
                 if rng.random() < 0.75 and self._nodes[i]["op"] == "leaf":
                     # same chunk size along the axis (cubed declines mismatching multi-chunk inputs)
@@ -1358,12 +1361,12 @@ class Gen:
         if f == "arange":
             step = rng.choice([1, 1, 2, 3, -1, 0.5])
             start = rng.randint(-3, 5)
-            n = rng.randint(0, 2 * self.maxdim)
+            n = rng.randint(0 if self.allow_zero else 1, 2 * self.maxdim)
             p.update(start=start, stop=start + step * n if rng.random() < 0.7 else start + step * n + (0.5 * step if isinstance(step, float) else 0), step=step)
             size = n
             p["chunks"] = [rng.randint(1, max(1, size))]
         elif f == "linspace":
-            num = rng.randint(0 if rng.random() < 0.05 else 1, 2 * self.maxdim)
+            num = rng.randint(0 if (rng.random() < 0.05 and self.allow_zero) else 1, 2 * self.maxdim)
             p.update(start=rng.randint(-3, 3), stop=rng.randint(4, 20), num=num, endpoint=rng.random() < 0.7)
             p["chunks"] = [rng.randint(1, max(1, num))]
         elif f == "eye":
@@ -1374,7 +1377,7 @@ class Gen:
             if rng.random() < 0.3:
                 p["dtype"] = rng.choice(["int64", "float32", "bool"])
         else:
-            shape = draw_shape(rng, self.maxdim, self.maxnd)
+            shape = draw_shape(rng, self.maxdim, self.maxnd, allow_zero=self.allow_zero)
             p["shape"] = shape
             p["chunks"] = draw_chunks(rng, shape)
             p["dtype"] = rng.choice(["float64", "int64", "bool", "int8", "float32"])
@@ -1530,3 +1533,11 @@ def is_nontrivial(recipe, vals):
         n["op"] == "leaf" and any(c < d for c, d in zip(n["p"]["chunks"], n["p"]["shape"])) for n in recipe["nodes"]
     )
     return multi_block
+
+
+def has_zero_size(np_vals):
+    for v in np_vals.values():
+        for x in v if isinstance(v, tuple) else (v,):
+            if getattr(x, "size", 1) == 0:
+                return True
+    return False
